@@ -6,6 +6,7 @@ every basis state like the fermionic operator it is the image of?) on the implem
 import itertools
 
 import numpy
+from fractions import Fraction
 
 from common import (Stream, budget, enc_op, canon_op_json, to_gq, dyadic, rng_for, show, gq_key)
 
@@ -13,8 +14,8 @@ TRUSTED = [
     'C04: the momentum sums of jordan_wigner_dual_basis_jellium / dual_basis_jellium_model (cos, pi; floating point) are '
     'not modelled: the Lean Model takes them as tables K(delta), P(delta) (the FermionOperator model is then compared '
     'exactly, the direct form exactly on its strings and to 1e-9 on its coefficients, counted as float_comparisons); '
-    'jordan_wigner_dual_basis_hamiltonian (external potential) has no Lean Model and is compared with '
-    'jordan_wigner(of the FermionOperator model) with absolute tolerance 1e-9 only',
+    'jordan_wigner_dual_basis_hamiltonian / plane_wave_hamiltonian(plane_wave=False): modelled the same way with the '
+    'table ext[k][x][j]; their float accumulations are compared with the exact-rational Model to 1e-9 only',
 ]
 ASSUMPTIONS = [
     'coefficients are dyadic Gaussian rationals with small numerators, on which IEEE double arithmetic of the '
@@ -30,19 +31,30 @@ OPEN_STATEMENTS = [
     '(no non-zero value deleted by the |v| < EQ_TOLERANCE test of +=); without it the statements are false by '
     'design of the library; the hypothesis is evaluated by the Model on every generated input and counted in the '
     'distribution (theorem-hypothesis exact-regime)',
+    'reverse_jw_right_inverse / reverse_jw_right_inverse_term / reverse_jw_ladder ARE theorems: jw(reverse_jw(Q)) acts like Q '
+    'for every QubitOperator of canonical X/Y/Z strings (exact-regime flags of both transforms evaluated on every input); '
+    'additionally jw(reverse_jw(Q)) == Q as dictionaries is checked exactly on the implementation',
     'reverse_jw_left_inverse is proved as an operator identity (reverse_jw(jw A) acts like A); the literal statement '
     '"normal_ordered(reverse_jw(jw A)) == normal_ordered(A) as dictionaries" additionally needs the uniqueness of normal '
     'ordered forms (property C03) and is checked exactly on random A',
     'linearity / multiplicativity / dagger-compatibility of jordan_wigner are consequences of jw_exact in the Spec '
     'semantics (jw_mul_sound, jw_add_sound are the Model-level halves); they are not stated as separate theorems and '
     'are checked exactly on the implementation\'s values',
-    'jw_jellium_direct_sound / jw_jellium_direct_eq_jordan_wigner / jellium_grid_index_structure ARE theorems (every '
-    'grid, every dimension and lengths, spinless / spinful, with / without constant) over the exact index structure with '
-    'the momentum sums abstract; hypotheses: K, P even, sum of P over the grid = 0 (true for the real sums; for the '
-    'library\'s floats they hold to rounding and are checked numerically on every generated grid), exact-regime flags '
-    '(which FAIL on grids where a coefficient is an exact-zero sum evaluated to ~1e-17 and then deleted by +=: counted)',
-    'jordan_wigner_dual_basis_hamiltonian: no Model (float cos/pi); compared with jordan_wigner of the FermionOperator '
-    'model, tolerance 1e-9',
+    'jw_jellium_direct_sound / jw_jellium_direct_sound_of_flags / jw_jellium_direct_eq_jordan_wigner / '
+    'jellium_grid_index_structure ARE theorems (every grid, every dimension and lengths, spinless / spinful, with / without '
+    'constant) over the exact index structure with the momentum sums abstract; hypotheses: K, P even, sum of P over the grid '
+    '= 0, exact-regime flags.  What is established for the LIBRARY (floating point): (a) each of the two paths equals the Model '
+    'evaluated on the library\'s own float tables K, P - the FermionOperator exactly (keys and coefficients, deletions by += '
+    'included), the direct form exactly on its set of strings and to 1e-9 on coefficients; (b) on float tables the hypotheses '
+    '"even" and "sum P = 0" hold to rounding only (checked to 1e-9 on every grid) and sum P = 0 never holds exactly, so the '
+    'theorem is never applied to float tables: it is applied to the exact rational tables of stream '
+    'dual-basis-jellium-exact-tables (all hypotheses evaluated by the driver, all hold); (c) on the 20 of 64 float runs (the 10 runs on the 2x3 / 3x2 grids, both paths) whose '
+    'exact-regime flag fails (a coefficient that is an exact-zero sum evaluated to ~1e-15 is deleted by +=) nothing beyond (a) '
+    'and the numeric 1e-9 comparison fast-path vs jordan_wigner(model) of stream dual-basis-jellium is claimed',
+    'jw_dual_basis_hamiltonian_sound IS a theorem (jellium hypotheses + exact-regime flags, coefficient table ext and the '
+    'zero-momentum test abstract); for the library both paths accumulate many float coefficients on one key, so the '
+    'correspondence with the Model is exact on the sets of strings and 1e-9 on coefficients (stream '
+    'dual-basis-hamiltonian-model); the theorem is applied to exact rational tables (stream dual-basis-jellium-exact-tables)',
 ]
 
 ERRS = (TypeError, ValueError, IndexError, KeyError, AttributeError, RuntimeError, ZeroDivisionError,
@@ -604,6 +616,15 @@ def stream_reverse(ctx):
         n = max(modes_of(jQ), modes_of(jF))
         b.add('reverse_jordan_wigner', case, jF, {'op': 'c04.reverse', 'Q': jQ},
               oracle('fermion', n, ['op', jF], jQ), canonical=False, regime_req={'op': 'c04.reverse_ok', 'Q': jQ})
+        # right inverse: jordan_wigner(reverse_jordan_wigner(Q)) acts like Q (reverse_jw_right_inverse)
+        ok, Q2 = call(st, 'jordan_wigner(reverse_jordan_wigner(Q))', case, lambda: jw(F))
+        if ok:
+            st.count('right-inverse')
+            jQ2 = enc_op('qubit', Q2.terms)
+            b.add('jordan_wigner(reverse_jordan_wigner(Q))', case, jQ2, {'op': 'c04.fermion', 'A': jF},
+                  oracle('qubit', n, ['op', jQ], jQ2), regime_req={'op': 'c04.fermion_ok', 'A': jF})
+            if canon_nz(jQ2) != canon_nz(jQ):
+                st.violate('jordan_wigner(reverse_jordan_wigner(Q)) != Q as dictionaries', case, {'result': jQ2})
     b.flush()
     rng = rng_for(ctx.seed, 'c04-roundtrip')
     for _ in range(budget(ctx.tier, 40, 400)):
@@ -809,7 +830,10 @@ def stream_jellium_model(ctx):
     from common import from_gq
     for (kind, case, impl, _), mo in zip(reqs, answers):
         if kind == 'ok':
-            st.count('theorem-hypothesis exact-regime: %s' % ('holds' if mo else 'fails (tolerance deletion)'))
+            st.count('float tables, exact-regime flag of this path: %s' %
+                     ('holds' if mo else 'fails (a coefficient that is an exact-zero sum evaluated to ~1e-15 was deleted by '
+                      '+=; Model mirrors the deletion, comparison with the Model stays exact; the two library paths are then '
+                      'tied by the numeric 1e-9 comparison of stream dual-basis-jellium only)'))
         elif kind == 'points':
             if impl != mo:
                 st.disagree('all_points_indices: order differs', case, impl, mo)
@@ -833,6 +857,228 @@ def stream_jellium_model(ctx):
             if worst > 1e-9 * big:
                 st.violate('jordan_wigner_dual_basis_jellium: coefficient differs from the Model closed form', case,
                            {'max_abs_difference': worst})
+    return st
+
+
+def stream_dual_basis_hamiltonian_model(ctx):
+    of = ctx.of
+    import importlib
+    import numpy as np
+    pw = importlib.import_module('openfermion.hamiltonians.plane_wave_hamiltonian')
+    md = importlib.import_module('openfermion.chem.molecular_data')
+    from openfermion.utils import Grid
+    st = Stream('dual-basis-hamiltonian-model', 'Model of jordan_wigner_dual_basis_hamiltonian and of '
+                'plane_wave_hamiltonian(plane_wave=False) with a geometry (external potential of nuclei on top of the jellium '
+                'Model): index structure exact (loops over momenta / qubits / nuclei resp. positions / nuclei / momenta / '
+                'spins, orbital numbering, skipped zero momentum, "operator = first term", Q((), c) - Q(Z_p, c) pairs, final '
+                '+), coefficient table ext[k][x][j] = (-2 pi / Omega) / k^2 Z_j cos(k.(R_j - r_x)) computed with the '
+                'library\'s own float operations (the FermionOperator form uses exactly twice it): both paths '
+                'accumulate many float coefficients on one key (rounding) where the Model adds the same numbers exactly, so '
+                'both are compared exactly on their sets of strings (coefficients above 1e-7) and to 1e-9 on coefficients; '
+                'grids 1-D / 2-D, unequal lengths, sheared cell, spinless / spinful, 1-2 nuclei')
+    grids = [(1, 2, 1.0), (1, 3, 2.0), (1, 4, 1.5), (2, 2, 1.0), (2, (2, 3), 1.0), (2, (3, 2), 1.5),
+             (2, 2, np.diag([1.0, 1.7])), (2, (2, 3), np.array([[1.0, 0.3], [0.0, 1.2]]))]
+    if ctx.tier == 'thorough' or ctx.drift:
+        grids += [(1, 5, 0.75), (3, 2, 1.0), (2, 3, 2.0)]
+    reqs = []
+    for (d, l, scale) in grids:
+        cubic = isinstance(scale, float)
+        cell = np.asarray(scale) if not cubic else np.diag([scale] * d)
+        geos = [[('H', tuple(cell.dot(np.array([0.25] * d))))],
+                [('H', tuple(cell.dot(np.array([0.25] * d)))), ('He', tuple(cell.dot(np.array([0.6, 0.35, 0.8][:d]))))]]
+        for spinless in (True, False):
+            grid = Grid(d, l, scale)
+            if grid.num_points * (1 if spinless else 2) > 16:
+                continue
+            lengths = [int(x) for x in grid.length]
+            ok, tabs = call(st, 'grid vectors', {'grid': [d, lengths]}, lambda: jellium_tables(grid, np))
+            if not ok:
+                continue
+            pts, kin, pot, K, P = tabs
+            for geometry in geos:
+                def tables():
+                    volume = grid.volume_scale()
+                    prefactor = -2 * np.pi / volume
+                    n = grid.num_points
+                    tf = lambda idx: sum(i * int(np.prod(lengths[:dd])) for dd, i in enumerate(idx))   # noqa: E731
+                    skip = [False] * n
+                    ext = [[[0.0] * len(geometry) for _ in range(n)] for _ in range(n)]
+                    for k in pts:
+                        momenta = grid.momentum_vector(k)
+                        msq = momenta.dot(momenta)
+                        if msq == 0:
+                            skip[tf(k)] = True
+                            continue
+                        for x in pts:
+                            coordinate_p = grid.position_vector(x)
+                            for j, nuc in enumerate(geometry):
+                                coordinate_j = np.array(nuc[1], float)
+                                cos_index = momenta.dot(coordinate_j - coordinate_p)
+                                ext[tf(k)][tf(x)][j] = (prefactor / msq * md.periodic_hash_table[nuc[0]] * np.cos(cos_index))
+                    return skip, ext
+                ok, se = call(st, 'external potential table', {'grid': [d, lengths]}, tables)
+                if not ok:
+                    continue
+                skip, ext = se
+                shown = [d, lengths, scale if cubic else np.asarray(scale).tolist()]
+                case = {'fn': 'jordan_wigner_dual_basis_hamiltonian / plane_wave_hamiltonian(plane_wave=False)',
+                        'grid': shown, 'spinless': spinless, 'geometry': [[a, list(map(float, b))] for a, b in geometry]}
+                st.case(case)
+                st.count('hamiltonian-model:d=%d:%s:%d nuclei' % (d, 'spinless' if spinless else 'spinful', len(geometry)))
+                args = {'lengths': lengths, 'spinless': spinless, 'kin': [to_gq(x) for x in K], 'pot': [to_gq(x) for x in P],
+                        'constant': None, 'nuclei': len(geometry), 'skip': skip,
+                        'ext': [[[to_gq(float(c)) for c in row] for row in plane] for plane in ext]}
+                ok1, F = call(st, 'plane_wave_hamiltonian(plane_wave=False)', case,
+                              lambda: pw.plane_wave_hamiltonian(grid, geometry, spinless, False, False))
+                ok2, Q = call(st, 'jordan_wigner_dual_basis_hamiltonian', case,
+                              lambda: pw.jordan_wigner_dual_basis_hamiltonian(grid, geometry, spinless, False))
+                if ok1:
+                    reqs.append(('model', case, enc_op('fermion', F.terms), dict(args, op='c04.dbh_model')))
+                    reqs.append(('ok', case, None, dict(args, op='c04.dbh_model_ok')))
+                if ok2:
+                    reqs.append(('direct', case, enc_op('qubit', Q.terms), dict(args, op='c04.dbh_direct')))
+                    reqs.append(('ok', case, None, dict(args, op='c04.dbh_direct_ok')))
+    answers = ctx.driver.run([r[3] for r in reqs])
+    from common import from_gq
+    for (kind, case, impl, _), mo in zip(reqs, answers):
+        if kind == 'ok':
+            st.count('float tables, exact-regime flag of this path: %s' % ('holds' if mo else 'fails (a partial sum of '
+                     'rounding size, ~1e-17, is deleted by += in the exact-rational run of the Model)'))
+        else:
+            # both paths accumulate many float coefficients on the same key (sum over momenta and nuclei), which
+            # rounds; the Model adds the same numbers exactly: keys are compared exactly, coefficients to 1e-9
+            ki = {json_key(t): c for t, c in impl}
+            km = {json_key(t): c for t, c in mo}
+            tiny = lambda c: abs(complex(*[float(x) for x in from_gq(c)])) < 1e-7      # noqa: E731
+            if {k for k in ki if not tiny(ki[k])} != {k for k in km if not tiny(km[k])}:
+                st.disagree(('plane_wave_hamiltonian(plane_wave=False)' if kind == 'model' else
+                             'jordan_wigner_dual_basis_hamiltonian') + ': set of strings differs', case,
+                            sorted(set(ki) - set(km))[:5], sorted(set(km) - set(ki))[:5])
+                continue
+            big = max([1.0] + [abs(complex(*[float(x) for x in from_gq(c)])) for c in km.values()])
+            worst = 0.0
+            zero = [0, 1, 0, 1]
+            for k in set(ki) | set(km):
+                a = complex(*[float(x) for x in from_gq(ki.get(k, zero))])
+                b2 = complex(*[float(x) for x in from_gq(km.get(k, zero))])
+                worst = max(worst, abs(a - b2))
+            st.float_comparisons += len(set(ki) | set(km))
+            if worst > 1e-9 * big:
+                st.violate(('plane_wave_hamiltonian(plane_wave=False)' if kind == 'model' else
+                            'jordan_wigner_dual_basis_hamiltonian') + ': coefficient differs from the Model', case,
+                           {'max_abs_difference': worst})
+    return st
+
+
+COS_TABLE = {1: {0: 1}, 2: {0: 1, 1: -1}, 3: {0: 1, 1: Fraction(-1, 2), 2: Fraction(-1, 2)},
+             4: {0: 1, 1: 0, 2: -1, 3: 0},
+             6: {0: 1, 1: Fraction(1, 2), 2: Fraction(-1, 2), 3: -1, 4: Fraction(-1, 2), 5: Fraction(1, 2)}}
+
+
+def stream_jellium_exact(ctx):
+    """instances on which EVERY hypothesis of jw_jellium_direct_sound holds exactly"""
+    import math
+    from openfermion.utils import Grid
+    st = Stream('dual-basis-jellium-exact-tables', 'grids whose cosines are rational (lcm of the lengths in {1,2,3,4,6}): '
+                'K(delta) = sum_k cos(k.r_delta) |m_k|^2 / 2n and P(delta) = sum_k cos(k.r_delta) / |m_k|^2 computed as exact '
+                'rationals from the library\'s momentum integers (units 2 pi / a = 1, prefactor 2 pi / Omega = 1); on these the '
+                'driver evaluates ALL hypotheses of jw_jellium_direct_sound_of_flags and (with two nuclei placed on grid points, '
+                'ext[k][x][j] = -Z_j cos(k.(R_j - r_x)) / |m_k|^2) of jw_dual_basis_hamiltonian_sound (K, P even and sum P = 0 '
+                'exactly; both exact-regime flags) and the Spec oracle re-checks the conclusion (the Model direct form acts like the Model '
+                'FermionOperator on every basis state, n_qubits <= 10); spinless and spinful, with and without a constant')
+    shapes = [(2,), (3,), (4,), (6,), (2, 2), (2, 3), (3, 2), (3, 3), (2, 4), (4, 2), (2, 2, 2), (6, 1), (1, 3, 2)]
+    if ctx.tier == 'thorough' or ctx.drift:
+        shapes += [(4, 4), (2, 6), (3, 6), (2, 2, 3), (3, 2, 2), (2, 3, 2)]
+    reqs, meta = [], []
+    for shape in shapes:
+        d = len(shape)
+        D = 1
+        for L in shape:
+            D = D * L // math.gcd(D, L)
+        if D not in COS_TABLE:
+            continue
+        n = 1
+        for L in shape:
+            n *= L
+        grid = Grid(d, shape, 1.0)
+        pts = [tuple(int(x) for x in p) for p in grid.all_points_indices()]
+        mints = {p: [int(x) for x in grid.index_to_momentum_ints(p)] for p in pts}
+        K = [Fraction(0)] * n
+        P = [Fraction(0)] * n
+        for b in pts:
+            kc, pc = Fraction(0), Fraction(0)
+            for kpt in pts:
+                m = mints[kpt]
+                msq = sum(x * x for x in m)
+                if msq == 0:
+                    continue
+                r = sum(mi * bi * (D // L) for mi, bi, L in zip(m, b, shape)) % D
+                c = Fraction(COS_TABLE[D][r])
+                kc += c * msq / (2 * n)
+                pc += c / msq
+            t, stride = 0, 1
+            for i, L in zip(b, shape):
+                t += i * stride
+                stride *= L
+            K[t], P[t] = kc, pc
+        for spinless in (True, False):
+            nq = n * (1 if spinless else 2)
+            if nq > 12:
+                continue
+            for const in (None, Fraction(7, 4)):
+                case = {'fn': 'jw_jellium_direct_sound (exact tables)', 'lengths': list(shape), 'spinless': spinless,
+                        'constant': None if const is None else to_gq(const)}
+                st.case(case)
+                st.count('exact-tables:d=%d:%s' % (d, 'spinless' if spinless else 'spinful'))
+                args = {'lengths': list(shape), 'spinless': spinless, 'kin': [to_gq(x) for x in K],
+                        'pot': [to_gq(x) for x in P], 'constant': None if const is None else to_gq(const)}
+                for op in ('c04.jellium_hyp', 'c04.jellium_direct_ok', 'c04.jellium_model_ok', 'c04.jellium_direct',
+                           'c04.jellium_model'):
+                    reqs.append(dict(args, op=op))
+                meta.append((case, nq))
+            # with nuclei sitting on grid points (rational cosines): jw_dual_basis_hamiltonian_sound
+            nuclei = [(pts[0], 1), (pts[-1], 2)]
+            skip = [False] * n
+            ext = [[[Fraction(0)] * len(nuclei) for _ in range(n)] for _ in range(n)]
+            tfi = lambda idx: sum(i * int(numpy.prod(shape[:dd])) for dd, i in enumerate(idx))     # noqa: E731
+            for kpt in pts:
+                m = mints[kpt]
+                msq = sum(x * x for x in m)
+                if msq == 0:
+                    skip[tfi(kpt)] = True
+                    continue
+                for xpt in pts:
+                    for j, (rj, zj) in enumerate(nuclei):
+                        r = sum(mi * (a - b2) * (D // L) for mi, a, b2, L in zip(m, rj, xpt, shape)) % D
+                        ext[tfi(kpt)][tfi(xpt)][j] = -Fraction(zj) * Fraction(COS_TABLE[D][r]) / msq
+            case = {'fn': 'jw_dual_basis_hamiltonian_sound (exact tables)', 'lengths': list(shape), 'spinless': spinless,
+                    'nuclei_at': [list(rj) for rj, _ in nuclei]}
+            st.case(case)
+            st.count('exact-tables with nuclei:d=%d:%s' % (d, 'spinless' if spinless else 'spinful'))
+            args = {'lengths': list(shape), 'spinless': spinless, 'kin': [to_gq(x) for x in K], 'pot': [to_gq(x) for x in P],
+                    'constant': None, 'nuclei': len(nuclei), 'skip': skip,
+                    'ext': [[[to_gq(c) for c in row] for row in plane] for plane in ext]}
+            for op in ('c04.jellium_hyp', 'c04.dbh_direct_ok', 'c04.dbh_model_ok', 'c04.dbh_direct', 'c04.dbh_model'):
+                reqs.append(dict(args, op=op))
+            meta.append((case, nq))
+    ans = ctx.driver.run(reqs)
+    oreqs, ocases = [], []
+    for i, (case, nq) in enumerate(meta):
+        hyp, okd, okm, Q, A = ans[5 * i: 5 * i + 5]
+        st.count('hypotheses K, P even and sum P = 0 (exact): %s' % ('hold' if hyp else 'FAIL'))
+        st.count('exact-regime flags (direct, model): %s' % ('both hold' if okd and okm else 'direct=%s model=%s' % (okd, okm)))
+        if not hyp:
+            st.violate('exact rational tables do not satisfy the hypotheses of jw_jellium_direct_sound', case, {})
+        if hyp and okd and okm:
+            st.count('theorem applies (all hypotheses hold)')
+            if nq <= 10:
+                oreqs.append(oracle('fermion', nq, ['op', A], Q))
+                ocases.append(case)
+    for case, a in zip(ocases, ctx.driver.run(oreqs)):
+        st.count('oracle:checked')
+        if not a['eq']:
+            st.violate('Model direct form does not act like the Model FermionOperator although all hypotheses hold', case,
+                       {'witness_state': a['state']})
     return st
 
 
@@ -1480,4 +1726,5 @@ def stream_hardening(ctx):
 
 def run(ctx):
     return [stream_fermion(ctx), stream_helpers(ctx), stream_tensors(ctx), stream_reverse(ctx),
-            stream_jellium(ctx), stream_jellium_model(ctx), stream_hardening(ctx)]
+            stream_jellium(ctx), stream_jellium_model(ctx), stream_jellium_exact(ctx), stream_dual_basis_hamiltonian_model(ctx),
+            stream_hardening(ctx)]
